@@ -111,6 +111,13 @@ class Obj:
                     self.symbols[m.group(3)] = (int(m.group(1)), int(m.group(2), 16))
 
     def section_bytes(self, name):
+        if not hasattr(self, "_secbytes"):
+            self._secbytes = {}
+        if name not in self._secbytes:
+            self._secbytes[name] = self._section_bytes(name)
+        return self._secbytes[name]
+
+    def _section_bytes(self, name):
         out = run(["llvm-objdump", "-s", "-j", name, self.path])
         data = bytearray()
         for line in out.splitlines():
